@@ -140,8 +140,9 @@ where
                     // Convert Bytes to Vec<u8>
                     let byte_vec: Vec<u8> = chunk.to_vec();
                     // Convert Vec<u8> to Vec<u16>
+                    // (chunks_exact: a trailing odd byte is ignored instead of indexing out of bounds)
                     let u16_vec: Vec<u16> = byte_vec
-                        .chunks(2)
+                        .chunks_exact(2)
                         .map(|chunk| u16::from_le_bytes([chunk[0], chunk[1]]))
                         .collect();
 
